@@ -126,6 +126,11 @@ WIDE_INT_TEXTS = ["18446744073709551617x + x", "18446744073709551616x + 2x", "x 
                   "18446744073709551617 + 18446744073709551619", "3z * 18446744073709551629 + z", "18446744073709551617x + 18446744073709551617x"]
 
 
+MANY_DIGIT_TEXTS = ["100000.25 + 2.5", "3x * (100000.25 + 2.5) + y", "1.2345678x + 2.25x", "1.2345678 * 2 + z", "0.707106781186548 + 4", "123456.789 - 0.001 + x",
+                    "x = 9.87654321 * 3", "12345.678 * 0.5y", "y = 2.718281828 - 1.414213562", "1.2345678x + 2.25x + (0.707106781 + 4)", "33333.25x + 11111.5x", "7 / 3 + x",
+                    "0.123456789 * 1000", "99999.5 + 0.25 = z"]
+
+
 def wide_ints(rec, rules):
     """the wide-integer texts with every rule: listing, first match, and every listed application on a tree of
     its own.  Apart from the general stream because the pinned factoring rule cannot even be asked about them
@@ -237,6 +242,13 @@ def start_texts(cfg, rng, n_random, equations=0.25):
         k += 1
         if cfg.mine(k):
             yield "big-text", s, []
+    from .. import core as _core
+
+    if _core.CALLER_ENV[0]:
+        # the shard that runs with the caller's own decimal context / print options drives every text whose
+        # constants carry more digits than such settings keep
+        for s in MANY_DIGIT_TEXTS:
+            yield "edge-text", s, []
     for s in ARM_TEXTS:
         for v in WE.substituted(s):
             k += 1
